@@ -12,8 +12,9 @@ token list.  Tie = correspondence:
 Exercised only (CPython's tokenizer and parser are outside the model), stream `property:*`: the cleaned
 text is valid Python, has the same AST modulo the four kinds of noise, no comment but hints, every hint
 kept, no blank line, invariance under insertion of comments / blank lines / docstrings, idempotence.
-A failure there is a violation with the program as replay.  The one defect still open (F20, main guard) gets its narrow signature by
-*neutralisation*: the violation must disappear when exactly the offending shape is removed from the input.
+A failure there is a violation with the program as replay.  No finding of C13 is open any more: no violation is
+explained away (the *neutralisation* machinery stays, with an empty list).  `guard:programs` ties `suppress_main_guard`
+(parser = oracle recorded with `ast`) to the model and to the specification `keepOutsideGuards`.
 """
 import ast
 import io
@@ -72,6 +73,28 @@ def real_tokens(text):
     return out, None
 
 
+def parser_oracle(text):
+    """What `suppress_main_guard` learns from the parser: None when `ast.parse` raises SyntaxError or
+    ValueError, else the (lineno, end_lineno) of the top-level `if` statements, in source order."""
+    try:
+        body = ast.parse(text).body
+    except (SyntaxError, ValueError):
+        return None
+    return [[n.lineno, n.end_lineno] for n in body if isinstance(n, ast.If)]
+
+
+def guard_match(Cleanup):
+    """The compiled pattern's `match`, the default argument of suppress_main_guard."""
+    d = Cleanup.suppress_main_guard.__defaults__
+    m = d[0] if d else None
+    return m if getattr(m, "__name__", "") == "match" else None
+
+
+def real_preprocess(Cleanup, s):
+    return Cleanup.suppress_sys_path_injection(
+        Cleanup.suppress_main_guard(Cleanup.suppress_first_comments(s))).replace("\t", "    ")
+
+
 def call(f, *a):
     try:
         return {"ok": f(*a)}
@@ -110,7 +133,7 @@ def regex_streams(ctx, drv, Cleanup):
     plans = [
         ("first_comments", Cleanup.suppress_first_comments,
          ["#", "x", "\n", " ", "# paroxython: a", "paroxython", ":", "#PAROXYTHON\t:"], 5 if quick else 6),
-        ("main_guard", Cleanup.suppress_main_guard,
+        ("guard_line", (lambda m: (lambda t: "1" if m(t) else "0"))(guard_match(Cleanup)),
          ["if ", " ", "__name__", "==", "'", "__main__", ":", "\n", "x"], 4 if quick else 5),
         ("sys_path", Cleanup.suppress_sys_path_injection,
          [inj, inj[:-1], "x", "\n", " "], 5 if quick else 7),
@@ -124,8 +147,11 @@ def regex_streams(ctx, drv, Cleanup):
         ("tabs", lambda s: s.replace("\t", "    "), ["\t", " ", "x", "\n"], 4 if quick else 6),
     ]
     for name, f, alphabet, maxlen in plans:
+        if name == "guard_line" and guard_match(Cleanup) is None:
+            ctx.broken.append("corr:regex:guard_line:no-match-callable-in-suppress_main_guard")
+            continue
         texts = list(seqs(alphabet, maxlen))
-        if name == "main_guard":
+        if name == "guard_line":
             tpl = guard_templates()
             if quick:
                 tpl = ctx.rng.sample(tpl, 20000)
@@ -136,10 +162,8 @@ def regex_streams(ctx, drv, Cleanup):
         compare_pass(ctx, drv, name, f, texts, exhaustive_upto=maxlen, alphabet=alphabet)
     # composites on random mixtures of all alphabets
     big = sorted({a for p in plans for a in p[2]})
-    pre = lambda s: Cleanup.suppress_sys_path_injection(  # noqa
-        Cleanup.suppress_main_guard(Cleanup.suppress_first_comments(s))).replace("\t", "    ")
     fin = lambda s: Cleanup.suppress_useless_pass_statements(Cleanup.suppress_blank_lines(s.strip()))  # noqa
-    for name, f in (("preprocess", pre), ("finish", fin)):
+    for name, f in (("finish", fin),):
         texts = ["".join(ctx.rng.choice(big) for _ in range(ctx.rng.randrange(0, 14)))
                  for _ in range(4000 if quick else 40000)]
         compare_pass(ctx, drv, name, f, texts)
@@ -156,6 +180,8 @@ def compare_pass(ctx, drv, name, f, texts, exhaustive_upto=None, alphabet=None):
             r = f(t)
             impl = [r[0], r[1]] if isinstance(r, tuple) else r
             nontrivial = (impl != t) if not isinstance(impl, list) else impl[1] > 0
+            if name == "guard_line":
+                nontrivial = impl == "1"
             changed += nontrivial
             ctx.count(stream, t, nontrivial=nontrivial)
             if impl != m:
@@ -325,6 +351,49 @@ def loop_disagreement(ctx, drv, stream, case, impl, m):
 
 # ------------------------------------------------------------------------------- loop: programs
 
+def guard_cases(drv, Cleanup, texts):
+    """Model answers for `suppress_main_guard` / the whole pre-processing, the parser being the oracle."""
+    cases = []
+    for t in texts:
+        cases.append({"text": t, "ifs": parser_oracle(t), "ifs1": parser_oracle(Cleanup.suppress_first_comments(t))})
+    out = []
+    for i in range(0, len(cases), 300):
+        out += drv.call("c13.model.guard", cases=cases[i:i + 300])["r"]
+    return cases, out
+
+
+def guard_stream(ctx, drv, pp, programs):
+    """`suppress_main_guard` alone on whole texts (valid or not): impl = model = the specification
+    `keepOutsideGuards` (exactly the lines of the guarded top-level `if` blocks removed)."""
+    Cleanup = pp.Cleanup
+    programs = [(o, p) for o, p in programs if in_alphabet(p) and "\r" not in p]
+    cases, res = guard_cases(drv, Cleanup, [p for _, p in programs])
+    for (origin, src), c, m in zip(programs, cases, res):
+        impl = call(Cleanup.suppress_main_guard, src)
+        nontrivial = "ok" in impl and impl["ok"] != src
+        ctx.count("guard:programs", src, nontrivial=nontrivial)
+        ctx.dist("guard:programs:" + ("unparsable" if c["ifs"] is None else f"{min(len(c['ifs']), 3)}-top-level-ifs"))
+        if nontrivial:
+            ctx.dist("guard:programs:block-removed")
+        if impl.get("ok") != m["guard"]:
+            ctx.cov["disagreements_checked"] += 1
+            replay = {"kind": "guard", "origin": origin, "source": src, "ifs": c["ifs"], "impl": impl, "model": m["guard"], "spec": m["spec"]}
+            if impl.get("ok") != m["spec"]:
+                ctx.violations.append({"what": "suppress_main_guard does not remove exactly the lines of the guarded top-level if blocks",
+                                       "replay": replay, "signature": None})
+            else:
+                ctx.broken.append("corr:guard:programs")
+                ctx.notes.append(json.dumps(replay, ensure_ascii=False)[:600])
+            return
+        if m["guard"] != m["spec"]:
+            ctx.broken.append("corr:guard:model-vs-spec")
+            return
+    ex = next(((o, p) for o, p in programs if "__main__" in p and parser_oracle(p)), None)
+    if ex:
+        ctx.sample({"stream": "guard:programs", "origin": ex[0], "source": ex[1][:300], "ifs": parser_oracle(ex[1]),
+                    "impl": pp.Cleanup.suppress_main_guard(ex[1])[:300]}, limit=16)
+
+
 def loop_programs(ctx, drv, pp, programs):
     """Real tokens of real texts: model(preprocess), then model(loop+finish) on the recorded tokens,
     against `Cleanup.full_cleaning`."""
@@ -332,11 +401,17 @@ def loop_programs(ctx, drv, pp, programs):
     n_all = len(programs)
     programs = [(o, p) for o, p in programs if in_alphabet(p)]
     ctx.dist("loop:programs:skipped-outside-model-alphabet", n_all - len(programs))
-    pres = drv.call("c13.model.pass", name="preprocess", texts=[p for _, p in programs])["r"]
+    programs = [(o, p) for o, p in programs if "\r" not in p or "\r\n" in p and p.count("\r") == p.count("\r\n")]
+    _, gres = guard_cases(drv, Cleanup, [p for _, p in programs])
+    pres = [g["preprocess"] for g in gres]
     reqs, metas = [], []
     for (origin, src), mpre in zip(programs, pres):
-        ipre = Cleanup.suppress_sys_path_injection(
-            Cleanup.suppress_main_guard(Cleanup.suppress_first_comments(src))).replace("\t", "    ")
+        try:
+            ipre = real_preprocess(Cleanup, src)
+        except Exception as exc:  # noqa
+            ctx.broken.append("corr:loop:programs:preprocess-raises")
+            ctx.notes.append(f"preprocess raises {type(exc).__name__} on {origin}: {src[:200]!r}")
+            return
         if ipre != mpre:
             ctx.cov["disagreements_checked"] += 1
             ctx.broken.append("corr:loop:programs:preprocess")
@@ -554,12 +629,36 @@ class ProgGen:
         if r.random() < 0.15:
             items.append(("code", 0, '__import__("sys").path[0:0] = ["programs"]', None))
         items += self.block(0, 0, n=r.randrange(1, 5))
-        if r.random() < 0.2:
-            items.append(("code", 0, r.choice(['if __name__ == "__main__":', "if __name__=='__main__':", 'if  __name__  ==  "__main__" :']), None))
-            items += self.block(4, 2, n=r.randrange(1, 3))
+        def guard_header():
+            return r.choice(['if __name__ == "__main__":', "if __name__=='__main__':", 'if  __name__  ==  "__main__" :'])
+
+        if r.random() < 0.3:
+            kind = r.random()
+            if kind < 0.15:
+                self.used.add("one-line-main-guard")
+                items.append(("code", 0, guard_header() + " " + r.choice(["main()", "pass", f"{self.name()}({self.expr(1)})"]), None))
+            else:
+                items.append(("code", 0, guard_header(), None))
+                items += self.block(4, 2, n=r.randrange(1, 3))
+                if r.random() < 0.2:
+                    self.used.add("multi-line-string-in-main-guard")
+                    items.append(("code", 4, f'{self.name()} = """line 1\nline 2 at column 0\n\n    line 4"""', None))
+                if r.random() < 0.25:
+                    self.used.add("main-guard-with-else")
+                    items.append(("code", 0, "else:", None))
+                    items += self.block(4, 2, n=r.randrange(1, 3))
             if self.shapes and r.random() < 0.3:
+                self.used.add("hint-comment-after-main-guard")
+                items.append(("hint", 0, r.choice(["foo", "-bar"])))
+            if self.shapes and r.random() < 0.5:
                 self.used.add("code-after-main-guard")
-                items += self.block(0, 2, n=1)
+                items += self.block(0, 2, n=r.randrange(1, 3))
+                if r.random() < 0.3:
+                    self.used.add("two-main-guards")
+                    items.append(("code", 0, guard_header(), None))
+                    items += self.block(4, 2, n=1)
+                    if r.random() < 0.5:
+                        items += self.block(0, 2, n=1)
         return items
 
     # -- layout
@@ -951,10 +1050,8 @@ def n_continuation_col0(src):
 
 
 NEUTRALISERS = [
-    # Only the finding that is still open. The neutralisers of the repaired findings (F08, F18, F19, F21,
-    # F22, F23, F33 = continuation line at column 0) are deliberately NOT consulted any more: those shapes
-    # must now clean correctly.
-    ("C13:code-after-main-guard-deleted", n_after_guard),
+    # No finding of C13 is open: nothing is explained away. (The neutralisers of the repaired findings — F08,
+    # F18, F19, F20, F21, F22, F23, F33 — are kept above for reference but deliberately NOT consulted.)
 ]
 
 
@@ -1102,6 +1199,12 @@ def property_stream(ctx, drv, stream, cases, seen_sigs):
 
 
 HAND_PICKED = [
+    'if __name__ == "__main__":\n    main()\nx = 2\n', 'x = 1\nif __name__ == "__main__":\n    a()\nelse:\n    b()\ny = 2\n',
+    'def main():\n    pass\nif __name__ == "__main__": main()\nz = 3\n',
+    'if __name__ == "__main__":\n    s = """a\nb at column 0\n"""\n    main()\n# paroxython: foo\nx = 1\n',
+    "if __name__=='__main__':\n    a()\nx = 1\nif  __name__  ==  \"__main__\" :\n    b()\ny = 2\n",
+    'if __name__ == "__main__" and x:\n    a()\ny = 1\n', 's = """\nif __name__ == "__main__":\n"""\nx = 1\n',
+    'def f():\n    if __name__ == "__main__":\n        g()\n    return 1\n',
     'def f(done, failed):\n    return not \\\n        done and not failed\n', 'x = first if flag else \\\nsecond\n',
     'ok = low <= x and \\\n    x <= high\n', 'if a and \\\n   b:\n    pass\n', 'y = 1 + \\\n    2\n',
     'for i in \\\nxs:\n    pass\n', 'def g(a, b):\n    if a is \\\n    b:\n        return a or \\\nb\n',
@@ -1133,12 +1236,11 @@ def run(ctx):
     NORMALIZE = Cleanup.normalize_paroxython_comments
     CLEAN = lambda s: str(Cleanup("full").run(s))  # noqa
     PASS_IMPL.update({
-        "first_comments": Cleanup.suppress_first_comments, "main_guard": Cleanup.suppress_main_guard,
+        "first_comments": Cleanup.suppress_first_comments,
+        "guard_line": (lambda m: (lambda t: "1" if m(t) else "0"))(guard_match(Cleanup)),
         "sys_path": Cleanup.suppress_sys_path_injection, "normalize": Cleanup.normalize_paroxython_comments,
         "blank_lines": Cleanup.suppress_blank_lines, "useless_pass": Cleanup.suppress_useless_pass_statements,
         "strip": lambda s: s.strip(), "tabs": lambda s: s.replace("\t", "    "),
-        "preprocess": lambda s: Cleanup.suppress_sys_path_injection(
-            Cleanup.suppress_main_guard(Cleanup.suppress_first_comments(s))).replace("\t", "    "),
         "finish": lambda s: Cleanup.suppress_useless_pass_statements(Cleanup.suppress_blank_lines(s.strip())),
     })
     quick = ctx.tier == "quick"
@@ -1174,6 +1276,9 @@ def run(ctx):
             s = ctx.rng.choice(pool)
             s = mutate(ctx.rng, s)
             malformed.append((f"malformed:{i}", s))
+        all_texts = ([(f"hand:{i}", s) for i, s in enumerate(HAND_PICKED)] + corpus_programs
+                     + [(o, s) for o, s, _, _ in generated] + [(o, b) for o, _, b, _ in generated[:100]] + malformed)
+        guard_stream(ctx, drv, pp, all_texts)
         loop_programs(ctx, drv, pp,
                       [(f"hand:{i}", s) for i, s in enumerate(HAND_PICKED)] + corpus_programs
                       + [(o, s) for o, s, _, _ in generated] + [(o, b) for o, _, b, _ in generated[:100]] + malformed)
@@ -1267,7 +1372,7 @@ def replay(ctx, path):
         if kind == "program":
             src = obj["source"]
             bad, out = clauses(drv, src)
-            pre = drv.call("c13.model.pass", name="preprocess", texts=[src])["r"][0]
+            pre = guard_cases(drv, pp.Cleanup, [src])[1][0]["preprocess"]
             toks, exc = real_tokens(pre)
             m = drv.call("c13.model.loop", tokens=toks) if exc is None else {"final": f"<tokenizer raises {exc}>"}
             print("source :", repr(src))
@@ -1275,8 +1380,17 @@ def replay(ctx, path):
             print("model  :", repr(m["final"]))
             print("spec   : failed clauses =", bad)
             return 1 if bad else 0
+        if kind == "guard":
+            c, m = guard_cases(drv, pp.Cleanup, [obj["source"]])
+            print("source :", repr(obj["source"]))
+            print("parser :", c[0]["ifs"])
+            print("impl   :", call(pp.Cleanup.suppress_main_guard, obj["source"]))
+            print("model  :", repr(m[0]["guard"]))
+            print("spec   :", repr(m[0]["spec"]), "(keepOutsideGuards)")
+            return 0
         if kind == "regex-pass":
-            f = {"first_comments": pp.Cleanup.suppress_first_comments, "main_guard": pp.Cleanup.suppress_main_guard,
+            f = {"first_comments": pp.Cleanup.suppress_first_comments,
+                 "guard_line": (lambda m: (lambda t: "1" if m(t) else "0"))(guard_match(pp.Cleanup)),
                  "sys_path": pp.Cleanup.suppress_sys_path_injection, "normalize": pp.Cleanup.normalize_paroxython_comments,
                  "blank_lines": pp.Cleanup.suppress_blank_lines, "useless_pass": pp.Cleanup.suppress_useless_pass_statements}.get(obj["pass"])
             print("text  :", repr(obj["text"]))
